@@ -341,6 +341,8 @@ pub fn run_server_lifecycle(src: &mut Src, ctx: &RunCtx, prop: &'static str) -> 
     let trace = ctx.trace;
     let root = std::env::temp_dir().join(format!("verif-c08-{}-{}", std::process::id(), LIFECYCLE_DIRS.fetch_add(1, std::sync::atomic::Ordering::Relaxed)));
     let _ = std::fs::remove_dir_all(&root);
+    // no scratch space (read-only or full temp dir): nothing to say about the server, and never an alarm
+    if std::fs::create_dir_all(&root).is_err() || std::fs::write(root.join(".probe"), b"x").is_err() { rep.probe("scratch_directory_unavailable"); rep.evals = 1; let _ = std::fs::remove_dir_all(&root); return rep; }
     let (data, wal_dir) = (root.join("data"), root.join("wal"));
     let mut twin = CommandExecutor::new();
     let mut tainted: std::collections::BTreeSet<String> = Default::default();
@@ -365,7 +367,14 @@ pub fn run_server_lifecycle(src: &mut Src, ctx: &RunCtx, prop: &'static str) -> 
             let walcfg = if wal_on { Some(WalConfig { enabled: true, wal_dir: wal2.clone(), fsync_policy: FsyncPolicy::Always, max_file_size: 700, group_commit_max_entries: 8, group_commit_max_wait: Duration::from_micros(50), truncation_check_interval: Duration::from_secs(30) }) } else { None };
             let (state, handles, wal) = match crate::sp_bin::verif_startup("localfs", data2.clone(), walcfg, repl_config(1, ConsistencyLevel::Eventual)).await {
                 Ok(x) => x,
-                Err(e) => { o.viol = Some((format!("{}/server-startup-failed", prop), format!("incarnation {}: the start-up block of main() failed on its own files: {}", inc, e))); return o; }
+                Err(e) => {
+                    let m = e.to_string();
+                    // the scratch file system itself gave up (full, read-only, quota): an environment problem, not a verdict
+                    let env = ["No space left", "Permission denied", "Read-only file system", "Disk quota", "Too many open files"].iter().any(|p| m.contains(p));
+                    if !env { o.viol = Some((format!("{}/server-startup-failed", prop), format!("incarnation {}: the start-up block of main() failed on its own files: {}", inc, m))); }
+                    o.next = evs.len() + 1;
+                    return o;
+                }
             };
             async fn view(state: &redis_sim::production::ReplicatedShardedState, key: &str) -> String {
                 let bb = |s: &str| s.as_bytes().to_vec();
